@@ -275,7 +275,7 @@ The optimised translator (`Translate`) and the unoptimised one (`TranslateUnopti
 lowering TraversalDirectionSelection may pick the other join order for a hop, and CountStoreFastPath replaces the count statement when the
 MATCH has no user predicate. -/
 def trVariant (flipOf : C01.S2.Query → Bool) (flipCh : C01.Ch.Query → Bool) (fastPath : Bool) (km : KindMap) (q : Cy.Query) :
-    Option (Sql.Stmt × List (String × Val)) := C01.tr4F flipOf flipCh fastPath km q
+    Option (Sql.Stmt × List (String × Val)) := C01.tr4F flipOf flipCh fastPath fastPath km q
 
 /-- with the optimiser: the model's approximation of the direction choice (see `C01.tr2F`), fast path on -/
 def trOpt (km : KindMap) (q : Cy.Query) : Option (Sql.Stmt × List (String × Val)) := trVariant C01.flipOpt (fun _ => false) true km q
